@@ -153,6 +153,8 @@ def run(ctx):
                     if any(x.matches(r"::filter$") for x in ch):
                         okf = True
                 ctx.check(okf, P, "loop-filtered", "tokens are written only for entries that passed the filter", tk.where())
+    from .entry import rule_entry_record
+    rule_entry_record(ctx, facts, "C05-R1")
     # ---- R2 same place ---------------------------------------------------------------------
     P = "C05-R2"
     f, pos = code_positions(ctx, facts, P)
